@@ -36,15 +36,28 @@ def scenario(params, ch):
     opts = order.split("|")[1:]     # "cs|dt60": 60 Hz frames; "cs|ka0.5": keep-alive (= resend delay) 0.5 s on both ends
     order = order.split("|")[0]
     ka = next((float(o[2:]) for o in opts if o.startswith("ka")), None)
+    early = []
+
+    def on_connected(w_, ce, ok):
+        # "cs|oncb": the client application sends its first message from INSIDE the connect callback, so that it
+        # shares a datagram with the challenge response
+        if ok and "oncb" in opts and not early:
+            size, retry = msgs[0]
+            early.append(app_send(w_, mon, "c", payload(1, SIZES[size]), retry))
     w = World(order=order, latency=latency, chooser=ch, monitors=[mon], dt=(1.0 / 60 if "dt60" in opts else 1.0 / 64),
-              server_cfg=({"setKeepAliveInterval": ka} if ka else None), client_cfg=({"setKeepAliveInterval": ka} if ka else None))
+              server_cfg=({"setKeepAliveInterval": ka} if ka else None), client_cfg=({"setKeepAliveInterval": ka} if ka else None),
+              on_connected=(on_connected if "oncb" in opts else None))
     sender = direction[0]
     try:
         w.run_until_connected()
         w.run(2)
-        base = len(w.all_sent)
+        base = 0 if "oncb" in opts else len(w.all_sent)
         w.fates = FATES
         for i, (size, retry) in enumerate(msgs):
+            if early and i == 0:
+                if early[0] is not None:
+                    ch.flag("send-raises", "send from inside the connect callback raised %s" % type(early[0]).__name__, repr(early[0]))
+                continue
             e = app_send(w, mon, sender, payload(i + 1, SIZES[size]), retry)
             if e is not None:
                 ch.flag("send-raises", "send raised %s" % type(e).__name__, repr(e))
@@ -133,6 +146,10 @@ def params_list(tier):
                 for o in (("cs|dt60", "cs|ka0.5") if tier == "quick" else ("cs|dt60", "sc|dt60", "cs|ka0.5")):
                     out.append((direction, msgs, "none", o, 1, 0))
                     out.append((direction, msgs, "none", o, 1, 100))
+            # the first message is sent from inside the client's connect callback (it travels with the challenge response)
+            if direction == "c2s":
+                for o in (("cs|oncb",) if tier == "quick" else ("cs|oncb", "sc|oncb", "cs|oncb|dt60")):
+                    out.append((direction, msgs + (("small", "none"),), "none", o, 1, 0))
             # round trip longer than the resend interval: retry modes put the message into several datagrams
             if any(r != "none" for _, r in msgs):
                 for lat in ((8,) if tier == "quick" else (8, 20)):
